@@ -95,7 +95,20 @@ def run_rm(ctx, p):
     base_v, base_f = 2e-5, 5e-5
     Vg = np.asarray(sg.Vregs, float)
     same = len(Vg) == len(V)
-    dv = float(np.max(np.abs(Vg - V))) / cs if same else None
+    # the speed of a shock of negligible strength is a quotient of two small differences in the general route
+    # (ill-conditioned: error ~ table accuracy / relative strength): such a wave's speed is left out of the comparison
+    keep = np.ones(len(V), dtype=bool)
+    if same:
+        ic_ = 1 if pat[0] == "S" else 2
+        xs_ = xd0 + t * V[ic_]
+        ps_ = float(ctx.call(si, np.array([xs_ - 1e-9 * max(abs(xs_), span)]), t)["pressure"][0])
+        if pat[0] == "S" and abs(ps_ / st["pl"] - 1.0) < 1e-3:
+            keep[0] = False
+        if pat[2] == "S" and abs(ps_ / st["pr"] - 1.0) < 1e-3:
+            keep[-1] = False
+        if not keep.all():
+            ctx.count("speed_of_a_shock_of_negligible_strength_not_compared")
+    dv = float(np.max(np.abs(Vg - V)[keep])) / cs if same else None
     fd = {}
     for f in F4:
         sc = cs if f == "velocity" else max(float(np.nanmax(np.abs(A[f]))), float(np.nanmax(np.abs(B[f]))), 1e-300)
@@ -111,7 +124,7 @@ def run_rm(ctx, p):
         B2 = ctx.call(sg2, x, t)
         Vg2 = np.asarray(sg2.Vregs, float)
         if same and len(Vg2) == len(Vg):
-            allow_v = 3.0 * float(np.max(np.abs(Vg2 - Vg))) / cs
+            allow_v = 3.0 * float(np.max(np.abs(Vg2 - Vg)[keep])) / cs
         worst_excess = -1.0
         for f in F4:
             sc = cs if f == "velocity" else max(float(np.nanmax(np.abs(A[f]))), float(np.nanmax(np.abs(B[f]))), 1e-300)
